@@ -372,7 +372,19 @@ def run_convert_widening(ctx, rng):
         (t.Dict[str, t.List[bool]], t.Dict[str, t.List[int]], lambda: {"k": [True]}), (t.FrozenSet[bool], t.Set[int], lambda: frozenset({True})),
         (t.Optional[t.List[int]], t.Optional[t.List[t.Optional[int]]], lambda: [1]),
     ]
-    st, dt_, mk = rng.choice(pairs)
+    # the abstract destinations: a dict under a Mapping annotation is still a DIFFERENT type (seeded change: as-is shortcut for Mapping destinations)
+    pairs += [(t.Dict[str, int], t.Mapping[str, int], lambda: {"a": 1}), (t.Dict[str, bool], t.Mapping[str, t.Any], lambda: {"a": True}),
+              (t.List[t.Dict[str, int]], t.List[t.Mapping[str, int]], lambda: [{"a": 1}]), (t.Dict[str, t.Dict[str, int]], t.Mapping[str, t.Mapping[str, int]], lambda: {"k": {"a": 1}}),
+              (t.List[int], t.Sequence[int], lambda: [1, 2]), (t.List[int], t.Iterable[int], lambda: [1]), (t.Set[int], t.AbstractSet[int], lambda: {1}),
+              (t.Dict[str, int], t.MutableMapping[str, int], lambda: {"a": 1}), (t.List[int], t.MutableSequence[int], lambda: [1])]
+    for st, dt_, mk in ([rng.choice(pairs)] if rng is not None else pairs):
+        _check_widening(ctx, st, dt_, mk)
+
+
+def _check_widening(ctx, st, dt_, mk):
+    from dataclasses import make_dataclass  # noqa: PLC0415
+
+    from adaptix.conversion import get_converter  # noqa: PLC0415
     S = make_dataclass("S", [("name", str), ("values", st)])
     D = make_dataclass("D", [("name", str), ("values", dt_)])
     made = attempt(get_converter, S, D)
@@ -636,7 +648,7 @@ class AM:
                 ctx.violation(f"later-result-changed-by-editing-an-earlier-one:{cls.__name__[:1]}", f"{cls.__name__}: after editing a loaded object the next load gives {m3!r}", info)
 
 
-DIRECTED = {"defaultdict-missing-required-key": _witness_defaultdict, "mutable-defaults-of-model-kinds": _mutable_defaults_of_model_kinds}
+DIRECTED = {"convert-widening-every-pair": lambda ctx: run_convert_widening(ctx, None), "defaultdict-missing-required-key": _witness_defaultdict, "mutable-defaults-of-model-kinds": _mutable_defaults_of_model_kinds}
 from ..suite_leg import make as _suite_leg  # noqa: E402
 
 DIRECTED["suite-under-monitors"] = _suite_leg("C20")
